@@ -173,6 +173,20 @@ func (g *gen) genModel() {
 			s.Embeds = append(s.Embeds, e)
 		}
 	}
+	// shadowing with another signature: a struct which gets Mb by promotion
+	// declares its own Mb with the other signature
+	if !g.off["altsig"] {
+		for _, s := range m.Structs {
+			if s.decl("Mb") != nil || len(s.Embeds) == 0 || !g.chance(30, "shadow-altsig") {
+				continue
+			}
+			if r := m.resolve(s.Idx, "Mb"); r.OK && r.Owner != s.Idx {
+				if d := m.Structs[r.Owner].decl("Mb"); d != nil {
+					s.Methods = append(s.Methods, method{Name: "Mb", Ptr: g.chance(50, "shadow-ptr"), Alt: !d.Alt})
+				}
+			}
+		}
+	}
 	// inner calls: a method may call a method promoted from a deeper struct
 	for _, s := range m.Structs {
 		for k := range s.Methods {
@@ -948,7 +962,13 @@ func (g *gen) probeAssertion() *probe {
 		}
 	}
 	if !tr.conc && d.Idx >= 0 && contains(tr.names, "Mb") && g.m.mixedAlt(d.Idx) {
-		p.feat("altsig-mixed")
+		if g.m.Structs[d.Idx].decl("Mb") != nil {
+			// the type's own method shadows the promoted ones: the flat merge of
+			// the method set records it last, the recorded finding does not apply
+			p.feat("altsig-mixed-own")
+		} else {
+			p.feat("altsig-mixed")
+		}
 	}
 	if !tr.conc && d.Idx >= 0 {
 		for _, n := range tr.names {
